@@ -135,7 +135,7 @@ def _tess(obj):
 
 
 READERS_ALL = ['ctrlpts', 'weights', 'ctrlptsw', 'ctrlpts2d', 'evalpts', 'bbox', 'sample_size', 'delta', 'tess',
-               'data', 'dims', 'domain', 'single', 'derivs']
+               'data', 'dims', 'domain', 'single', 'derivs', 'sweep']
 CP_READERS = ('ctrlpts', 'weights', 'ctrlptsw', 'ctrlpts2d', 'bbox', 'dims')
 
 
@@ -148,6 +148,20 @@ def read(obj, name):
         return plain(obj.data)
     if name == 'domain':
         return [plain(obj.domain), plain(obj.range)]
+    if name == 'sweep':
+        # many single-parameter queries on one object (97 distinct parameters of a curve, 13 x 9 of a surface): whatever the
+        # object remembers per parameter is filled far beyond a small capacity before the next edit
+        pd = obj.pdimension
+        if pd == 3:
+            return None
+        kvs = [obj.knotvector] if pd == 1 else list(obj.knotvector)
+        degs = [obj.degree] if pd == 1 else list(obj.degree)
+        rng = [(kv[p], kv[-(p + 1)]) for kv, p in zip(kvs, degs)]
+        if pd == 1:
+            lo, hi = rng[0]
+            return plain(obj.evaluate_list([lo + (hi - lo) * k / 96.0 for k in range(97)]))
+        (a, b), (c, d) = rng
+        return plain(obj.evaluate_list([[a + (b - a) * i / 12.0, c + (d - c) * j / 8.0] for i in range(13) for j in range(9)]))
     if name in ('single', 'derivs'):
         pd = obj.pdimension
         kvs = [obj.knotvector] if pd == 1 else list(obj.knotvector)
@@ -229,6 +243,8 @@ class SplineSystem(object):
                 continue
             if r in ('ctrlpts2d', 'tess') and self.pd != 2:
                 continue
+            if r == 'sweep' and self.pd != 1:
+                continue            # (curves only: the surface variant doubles the cost of the whole check)
             if not D['consistent'] and r not in CP_READERS:
                 continue
             if r == 'delta' or r == 'sample_size':
